@@ -1,4 +1,5 @@
 import Memterm.Proofs.InvStep
+import Memterm.Proofs.SparseStep
 import Memterm.Proofs.ColInv
 
 /-
@@ -71,6 +72,26 @@ example :
       .resize (some 3) (some 3), .draw [120, 121, 122]]
     (∀ c ∈ cs, c.argOk = true) ∧ (run env (init 5 4) cs).cursor.x = 2 ∧ (run env (init 5 4) cs).cursor.y = 2 ∧ (run env (init 5 4) cs).columns = 3 := by
   decide
+
+/-! #### the sparse layer: every reachable buffer state observes as a well-formed screen -/
+
+/-- REFINEMENT, every history: the sparse run (the model of what `src/screen.rs` does to its HashMap
+    buffer) observes exactly as the dense run, which is well-formed -/
+theorem sparse_reachable_wellformed (env : Env) (columns lines : Nat) (hc : 1 ≤ columns) (hl : 1 ≤ lines)
+    (hdc : columns < dimBound) (hdl : lines < dimBound) (cs : List Call) (ha : ∀ c ∈ cs, c.argOk = true) :
+    Sparse.abs (cs.foldl (Sparse.step env) (Sparse.init columns lines)) = run env (init columns lines) cs ∧
+    Inv (Sparse.abs (cs.foldl (Sparse.step env) (Sparse.init columns lines))) := by
+  have hi : Inv (Sparse.abs (Sparse.init columns lines)) := by
+    rw [Sparse.abs_init]; exact inv_init columns lines hc hl hdc hdl
+  have h1 := Sparse.abs_run env cs _ hi ha
+  rw [Sparse.abs_init] at h1
+  refine ⟨h1, ?_⟩
+  rw [h1]
+  exact inv_run env cs (inv_init columns lines hc hl hdc hdl) ha
+
+/-- one step, any operation -/
+theorem sparse_step_refines (env : Env) (ss : Sparse.SScreen) (c : Call) (h : Inv (Sparse.abs ss)) :
+    Sparse.abs (Sparse.step env ss c) = step env (Sparse.abs ss) c := Sparse.abs_step env ss c h
 
 end C09
 end Memterm
